@@ -125,6 +125,7 @@ FAMS_MC = [
     dict(GN=1, GD=1, PD=4, rewards=(-3, -1, 0), n_na=(1, 2, 2)),
     dict(GN=1, GD=1, PD=2, rewards=(-2, -1, 0), n_na=(1, 2, 2), rand=1),
     dict(GN=1, GD=2, PD=2, rewards=(-2, -1, 1), n_na=(1, 2), rand=1),
+    dict(GN=0, GD=1, PD=2, rewards=(-3, -2, -1, 0, 1), n_na=(2, 3, 3)),      # discount 0: legal, myopic
 ]
 FAMS_FLOAT = [
     dict(GN=9, GD=10, PD=2, rewards=(-2, -1, 0, 1, 2), n_na=(1, 2, 2)),
@@ -133,6 +134,7 @@ FAMS_FLOAT = [
     dict(GN=1, GD=2, PD=2, rewards=(-2, -1, 0, 1, 2), n_na=(2, 3)),
     dict(GN=3, GD=4, PD=4, rewards=(-2, -1, 0, 1), n_na=(1, 2, 2)),
     dict(GN=1, GD=1, PD=4, rewards=(-3, -1, 0, 1), n_na=(2, 2, 3)),
+    dict(GN=0, GD=1, PD=4, rewards=(-3, -2, -1, 0, 1), n_na=(2, 3)),
 ]
 
 
@@ -455,7 +457,7 @@ def real_run(m, rep, *, script=None, seed=0, randomize=False, iterations=3000, l
         b_ = build.build_mdp(inst, rng=random.Random(digest([inst["P"], inst["R"], rep])), **rep)
         r_ = Recorder(b_, inst, script=scr)
         r_.planner = planner
-        cur.update(b=b_, rec=r_, hv=[x / 2 ** inst["KB"] for x in inst["h"]])
+        cur.update(b=b_, rec=r_, hv=hvals(inst))
         return b_, r_
     try:
         L = m["L"] if m["L"] < 10 ** 6 else None
@@ -526,6 +528,19 @@ def judge_record(m, run, tag, oracle=1):
     return rec
 
 
+def judge_record2(m, run, tag):
+    """Two-scale rewards: the record carries the two integer reward layers and the heuristic as pairs."""
+    rec = {k: m[k] for k in ("N", "K", "PD", "GN", "GD", "ID", "abs", "avail", "P", "p0", "RA", "RB", "hA", "hB",
+                             "aord", "zl", "lst", "i0")}
+    pol = [[1 if a in run["pol"].get(s, {}) else 0 for a in range(m["K"])] for s in range(m["N"])]
+    for s in range(m["N"]):
+        if not any(pol[s]):
+            pol[s] = list(m["avail"][s])
+    rec.update(mode="judge2", oracle=0, R=m["RA"], KB=KB, EPS=1, L=1, h=[0] * m["N"], rand=0, pol=pol, tag=tag,
+               script=[], snaps=[])
+    return rec
+
+
 def fin(x):
     return isinstance(x, F)
 
@@ -536,7 +551,7 @@ def judge_run(ctx, m, run, jr, case, *, pyx=False, orc=None):
     ok = True
     N = m["N"]
     margin = m["margin"] if "margin" in m else m["EPS"] / 2 ** m["KB"]
-    hv = [x / 2 ** m["KB"] for x in m["h"]]
+    hv = hvals(m)
 
     def fail(sig, what):
         nonlocal ok
@@ -565,9 +580,29 @@ def judge_run(ctx, m, run, jr, case, *, pyx=False, orc=None):
     if jr is None:
         raise TLCFailure(f"no judge record for {case.get('tag')}")
     orc = orc if orc is not None else jr
-    vstar = [frac(x) for x in orc["vstar"]]
-    steps = [frac(x) for x in jr["steps"]]
-    vinit, pinit, ninit = frac(orc["vinit"]), frac(jr["pinit"]), frac(jr["ninit"])
+    two = "ka" in m
+    mx = m
+    if two:
+        # two-scale rewards: TLC's values are pairs (A, B) of the symbolic scales; V = 2^ka * A + 2^kb * B
+        if not jr["ok"]:
+            raise TLCFailure(f"no uniformly lexicographically optimal policy: {case.get('tag')}")
+        sa, sb = F(2) ** m["ka"], F(2) ** m["kb"]
+        comb = lambda xa, xb: [sa * frac(p_) + sb * frac(q_) for p_, q_ in zip(xa, xb)]
+        vstar = comb(jr["astar"], jr["bstar"])
+        tpv = comb(jr["apv"], jr["bpv"])
+        steps = [frac(x) for x in jr["steps"]]
+        w0 = [F(m["p0"][s], m["ID"]) for s in range(N)]
+        vinit = sum(w0[s] * vstar[s] for s in range(N))
+        pinit = sum(w0[s] * tpv[s] for s in range(N))
+        ninit = sum(w0[s] * steps[s] for s in range(N))
+        mx = dict(m, R=[[[sa * m["RA"][s][a][t] + sb * m["RB"][s][a][t] for t in range(N)] for a in range(m["K"])] for s in range(N)])
+        pyx = True                 # always cross-checked: the symbolic scale is an assumption of the encoding
+    else:
+        vstar = [frac(x) for x in orc["vstar"]]
+        steps = [frac(x) for x in jr["steps"]]
+        vinit, pinit, ninit = frac(orc["vinit"]), frac(jr["pinit"]), frac(jr["ninit"])
+        tpv = [frac(x) for x in jr["pv"]]
+    m_real, m = m, mx
     if pyx:
         # machinery cross-check of the TLA+ oracle against the independent Fraction implementation
         pv = pyoracle.optimal_value(m)
@@ -577,19 +612,27 @@ def judge_run(ctx, m, run, jr, case, *, pyx=False, orc=None):
              for s in range(N) if not m["abs"][s]}
         ppv = pyoracle.policy_value(m, w)
         pst = steps_of(m, w)
-        tpv = [frac(x) for x in jr["pv"]]
         if any(ppv[s] != tpv[s] for s in range(N)) or any(pst[s] != steps[s] for s in range(N)):
             raise TLCFailure(f"TLA+ and Python oracles disagree on the returned policy: {tpv}/{steps} vs {ppv}/{pst}")
         ctx.count("oracle_crosschecks")
-    if orc["adm"] == "bad" or not orc["proper"]:
+    m = m_real
+    if (jr if two else orc)["adm"] in ("bad", False) or not (jr if two else orc)["proper"]:
         raise TLCFailure(f"generator produced an inadmissible heuristic or improper MDP: {case.get('tag')}")
     if not all(fin(x) for x in vstar) or not all(fin(x) for x in steps) or not fin(vinit) or not fin(pinit):
         raise TLCFailure(f"non-finite oracle values on a proper MDP: {case.get('tag')}")
+    # float slack, derived: the real run works in doubles (unit round-off 1.1e-16); a backup adds a relative
+    # error of a few units to numbers of magnitude <= M, the residual test is made on such numbers, and
+    # (I - gamma P)^-1 amplifies a per-state error by at most N^pi.  1e-13 * M * (1 + N^pi) is ~100x that bound.
+    # (A slack *relative* to the values, like 1e-9 * |V|, would hide a residual test that is off by as much.)
+    M = max([1.0] + [abs(float(x)) for x in vstar] + [abs(x) for x in hv] + [abs(x) for x in run["V"].values()])
+
+    def slack(nsteps):
+        return 1e-12 + 1e-13 * M * (1 + float(nsteps))
     # ---- clause 2: the values of the touched states never fall below the optimum
     for sn in run["snaps"] + [{"kind": "final", "keys": list(run["V"]), "vals": run["V"]}]:
         for s in sn["keys"]:
             v = sn["vals"][s]
-            if v < float(vstar[s]) - 1e-9 * max(1.0, abs(float(vstar[s]))):
+            if F(v) < vstar[s] - F(slack(0)):
                 fail("C04:LRTDP._bellman_update:value-below-optimum",
                      f"V[{s}]={v} fell below V*={float(vstar[s])} ({sn['kind']} snapshot)")
                 break
@@ -599,14 +642,14 @@ def judge_run(ctx, m, run, jr, case, *, pyx=False, orc=None):
     for s in range(N):
         if m["p0"][s] > 0 and not m["abs"][s]:
             v = run["V"].get(s, hv[s])
-            gapv = v - float(vstar[s])
-            if gapv > margin * float(steps[s]) + 1e-9 * max(1.0, abs(v)):
+            gapv = float(F(v) - vstar[s])
+            if F(v) - vstar[s] > F(margin) * steps[s] + F(slack(steps[s])):
                 fail("C04:LRTDP.plan_on:initial-state-value-outside-margin",
                      f"V[{s}]={v} exceeds V*={float(vstar[s])} by {gapv} > margin*N^pi = {margin}*{float(steps[s])}")
     # ---- clause 4: exact return of the returned policy within margin * N^pi(p0) of the optimum
-    if float(pinit - vinit) > 1e-9:
+    if pinit > vinit:
         raise TLCFailure(f"policy return {pinit} above the optimum {vinit}: oracle broken ({case.get('tag')})")
-    if float(vinit - pinit) > margin * float(ninit) + 1e-9:
+    if vinit - pinit > F(margin) * ninit + F(slack(ninit)):
         unstored = [s for s in range(N) if not m["abs"][s] and s not in run["V"]]
         fail("C04:LRTDP.plan_on:policy-return-outside-margin",
              f"exact return {float(pinit)} of the returned policy vs optimum {float(vinit)}: gap {float(vinit - pinit)} > "
@@ -653,6 +696,11 @@ def judge_run(ctx, m, run, jr, case, *, pyx=False, orc=None):
     if not run["has_converged_attr"]:
         ctx.count("result_without_converged_attribute")
     return ok
+
+
+def hvals(m):
+    """The heuristic handed to the real code, as floats."""
+    return list(m["hfloat"]) if "hfloat" in m else [x / 2 ** m["KB"] for x in m["h"]]
 
 
 def fget(f, i):
@@ -860,7 +908,7 @@ def pipeline_free(ctx, cases):
             ctx.skip("free run leaves the 2^-KB grid (trace not validated, still judged)")
         if tr is not None:
             recs.append(tr)
-        recs.append(judge_record(m, run, f"j{k}", oracle=0 if tr is not None else 1))
+        recs.append(judge_record2(m, run, f"j{k}") if "ka" in m else judge_record(m, run, f"j{k}", oracle=0 if tr is not None else 1))
     by = run_tj(ctx, recs, "trace: recorded free runs validated against the machine; judge: their returned policies")
     for k, (c, run) in enumerate(zip(cases, runs)):
         m = c["m"]
@@ -900,12 +948,20 @@ def make_free_cases(rng, n, tier):
     cases = []
     while len(cases) < n:
         exact = len(cases) % 2 == 0
+        if len(cases) % 8 == 3:                       # two-scale rewards (extreme magnitudes / near-ties below 1e-8)
+            cases.append(make_two_scale_case(rng, "big" if len(cases) % 16 == 3 else "fine"))
+            continue
+        if len(cases) % 16 == 14:                     # targeted family "exact tie into an unvisited optimistic region"
+            m = make_tie_instance(rng, kb=20, mode="free")
+            cases.append({"m": m, "rep": dict(REPS[rng.randrange(len(REPS))]), "seed": rng.randrange(10 ** 6),
+                          "randomize": True, "iterations": 4000, "exact": True})
+            continue
         if len(cases) % 16 == 6:                      # targeted family "discount-sensitive fallback"
             m = make_flip_instance(rng, kb=20, mode="free")
             cases.append({"m": m, "rep": dict(REPS[rng.randrange(len(REPS))]), "seed": rng.randrange(10 ** 6),
                           "randomize": rng.random() < 0.5, "iterations": 4000, "exact": True})
             continue
-        fam = rng.choice(FAMS_MC[:5]) if exact else rng.choice(FAMS_FLOAT)
+        fam = rng.choice(FAMS_MC[:5] + FAMS_MC[7:]) if exact else rng.choice(FAMS_FLOAT)
         r = base_instance(rng, dict(fam, rand=0), small=False)
         if r is None:
             continue
@@ -1029,6 +1085,127 @@ def make_flip_instance(rng, *, kb=KB, mode="mc"):
     return m
 
 
+def make_tie_instance(rng, *, kb=KB, mode="mc"):
+    """Targeted family "exact tie into an unvisited optimistic region", for randomize_action_order: at s0
+    action a goes straight to the absorbing g (reward r), action b goes to u (reward 0) whose heuristic is the
+    optimistic r / gamma while its true value is lower by `loss`; Q(s0, a) = Q(s0, b) exactly as long as u is not
+    visited.  Under the action orders that list a first the run ends with u never touched; the returned policy
+    must then be a - the first maximiser in the order the *planner* fixed for s0, not in that of mdp.actions."""
+    g_n, g_d = rng.choice([(1, 1), (1, 2)])
+    r = rng.choice([-1, -2])
+    loss = rng.choice([2, 3])
+    hu = F(r) * g_d / g_n                               # r / gamma
+    perm = list(range(3))
+    rng.shuffle(perm)
+    s0, u, g = perm
+    N, K = 3, 2
+    avail = [[0, 0] for _ in range(N)]
+    P = [[[0] * N for _ in range(K)] for _ in range(N)]
+    R = [[[0] * N for _ in range(K)] for _ in range(N)]
+    a = rng.randrange(2)
+    avail[s0] = [1, 1]
+    P[s0][a][g] = 2
+    R[s0][a][g] = r
+    P[s0][1 - a][u] = 2
+    c = rng.randrange(2)
+    avail[u][c] = 1
+    P[u][c][g] = 2
+    R[u][c][g] = int(hu) - loss
+    avail[g] = [1, 1]
+    for k in range(K):
+        P[g][k][rng.choice([s0, u, g])] = 2
+        R[g][k] = [rng.choice([-3, 0, 4]) for _ in range(N)]
+    p0 = [0] * N
+    p0[s0] = 2
+    m = {"N": N, "K": K, "PD": 2, "GN": g_n, "GD": g_d, "ID": 2, "abs": [1 if t == g else 0 for t in range(N)],
+         "avail": avail, "P": P, "R": R, "p0": p0}
+    eps = F(1, rng.choice([8, 16]))
+    sc = 2 ** kb
+    h = [F(0)] * N
+    h[s0] = F(rng.choice([0, r]))
+    h[u] = hu
+    h[g] = F(rng.choice([0, 2]))
+    aord = []
+    for t in range(N):
+        av = [k + 1 for k in range(K) if avail[t][k]]
+        rng.shuffle(av)
+        aord.append(av)
+    m.update(KB=kb, EPS=int(eps * sc), L=rng.choice([3, 4]) if mode == "mc" else rng.choice([3, 10 ** 6]),
+             h=[int(y * sc) for y in h], hkind="tie", rand=1 if mode == "mc" else 0, aord=aord, zl=0, lst=[1] * N,
+             i0=[1 if q > 0 else 0 for q in p0], oracle=1, mode=mode)
+    return m
+
+
+def make_two_scale_case(rng, kind):
+    """Rewards r = 2^ka * RA + 2^kb * RB with ka - kb >= 19, exactly representable in doubles but far outside
+    32-bit arithmetic: the scale stays symbolic in the spec (mode "judge2", lexicographic oracle).
+      big   step costs of 2^19 (5e5) next to costs of 2^-12, margins 1e-6: |V| * 1e-9 exceeds the margin, so a
+            residual test with a relative tolerance, or any judgement relative to |V|, shows
+      fine  unit costs next to 2^-30 (9e-10), margins 1e-10 / 1e-12, and a state with two actions that differ
+            only in the fine layer: near-ties finer than 1e-8 that the margin still has to resolve
+    Heuristics: exact, exact on the coarse layer ignoring the fine one, coarse layer + slack, or 0."""
+    while True:
+        g_n, g_d = rng.choice([(1, 1), (1, 1), (1, 2)])
+        n_na = rng.choice([2, 3, 3])
+        m = gen.rand_mdp(rng, n_na=n_na, n_abs=rng.choice([1, 1, 2]), K=2, PD=2, GN=g_n, GD=g_d,
+                         rewards=(-2, -1) if kind == "big" else (-2, -1, 0), ID=rng.choice([2, 4]), force_progress=True,
+                         init_on_abs=0.2, uniform_actions=(kind == "fine"))
+        N, K = m["N"], m["K"]
+        RA = m["R"]
+        RB = [[[rng.choice([0, -1, -2, -3]) for _ in range(N)] for _ in range(K)] for _ in range(N)]
+        if kind == "fine":
+            # a state whose two actions differ only in the fine layer (second one worse by one fine unit)
+            cand = [s for s in range(N) if not m["abs"][s]]
+            s = rng.choice(cand)
+            lo, hi = rng.sample([0, 1], 2)
+            m["P"][s][lo] = list(m["P"][s][hi])
+            RA[s][lo] = list(RA[s][hi])
+            RB[s][lo] = [x - 1 for x in RB[s][hi]]
+        ka, kb = (19, -12) if kind == "big" else (0, -30)
+        sa, sb = F(2) ** ka, F(2) ** kb
+        mA, mB = dict(m, R=RA), dict(m, R=RB)
+        mF = dict(m, R=[[[sa * RA[s][a][t] + sb * RB[s][a][t] for t in range(N)] for a in range(K)] for s in range(N)])
+        if not gen.magnitude_ok(mA, QD=6):
+            continue
+        # lexicographic optimum (independent of the spec) must coincide with the numeric one at these scales
+        pols = list(pyoracle.det_policies(m))
+        vals = [(pyoracle.policy_value(mA, w), pyoracle.policy_value(mB, w)) for w in pols]
+        na = [s for s in range(N) if not m["abs"][s]]
+        best = [x for x in vals if all((x[0][s], x[1][s]) >= (y[0][s], y[1][s]) for y in vals for s in na)]
+        vnum = pyoracle.optimal_value(mF)
+        if not best or any(sa * best[0][0][s] + sb * best[0][1][s] != vnum[s] for s in range(N)):
+            continue
+        astar, bstar = best[0]
+        hA, hB = [], []
+        for s in range(N):
+            c = rng.choice(["exact", "coarse", "coarse", "slack", "zero"])
+            if m["abs"][s]:
+                hA.append(F(rng.choice([0, 0, 5]))); hB.append(F(0))
+            elif c == "exact":
+                hA.append(astar[s]); hB.append(bstar[s])
+            elif c == "coarse" or (c == "zero" and astar[s] > 0):
+                hA.append(astar[s]); hB.append(F(0))
+            elif c == "slack":
+                hA.append(astar[s] + rng.choice([F(1, 2), F(1)])); hB.append(F(0))
+            else:
+                hA.append(F(0)); hB.append(F(0))
+        hfl = [float(sa * x + sb * y) for x, y in zip(hA, hB)]
+        if any(F(z) != sa * x + sb * y for z, x, y in zip(hfl, hA, hB)):
+            continue                                   # heuristic not exactly representable
+        aord = []
+        for s in range(N):
+            av = [a + 1 for a in range(K) if m["avail"][s][a]]
+            rng.shuffle(av)
+            aord.append(av)
+        margin = rng.choice([1e-6, 2.0 ** -20]) if kind == "big" else rng.choice([1e-10, 1e-12, 2.0 ** -34])
+        m.update(RA=RA, RB=RB, ka=ka, kb=kb, R=[[[float(x) for x in row] for row in sr] for sr in mF["R"]],
+                 hA=[[x.numerator, x.denominator] for x in hA], hB=[[x.numerator, x.denominator] for x in hB],
+                 hfloat=hfl, margin=margin, KB=KB, EPS=1, L=rng.choice([10 ** 6, 10 ** 6, 4]), h=[0] * N, hkind="two-scale-" + kind,
+                 rand=0, aord=aord, zl=0, lst=[1] * N, i0=[1 if q > 0 else 0 for q in m["p0"]], oracle=1, mode="free")
+        return {"m": m, "rep": dict(REPS[rng.randrange(len(REPS))]), "seed": rng.randrange(10 ** 6),
+                "randomize": rng.random() < 0.5, "iterations": 1500, "exact": False}
+
+
 def make_mc_batch(rng, n, tier, corner=False, budget=None, cap=None, ctx=None):
     """n instances whose machines have at most `cap` states each and about `budget` states together."""
     cap = cap or (1500 if tier == "quick" else 6000)
@@ -1036,6 +1213,7 @@ def make_mc_batch(rng, n, tier, corner=False, budget=None, cap=None, ctx=None):
     batch = [dict(CORNER_D3)] if corner else []
     if corner:                                        # targeted family, in every first batch
         batch += [make_flip_instance(rng) for _ in range(12 if tier == "quick" else 60)]
+        batch += [make_tie_instance(rng) for _ in range(8 if tier == "quick" else 40)]
     total = 0
     while len(batch) < n and total < budget:
         m = make_mc_instance(rng, FAMS_MC[len(batch) % len(FAMS_MC)], tier)
@@ -1092,7 +1270,7 @@ def replay(ctx, case):
         return
     jby = {}
     if run["status"] == "ok" and not run["capped"]:
-        jby = run_tj(ctx, [judge_record(m, run, "j0")], "judge (replay)")
+        jby = run_tj(ctx, [judge_record2(m, run, "j0") if "ka" in m else judge_record(m, run, "j0")], "judge (replay)")
     if judge_run(ctx, m, run, jby.get("j0"), case, pyx=True):
         ctx.validated += 1
 
